@@ -1049,6 +1049,27 @@ def out8(units, R):
     n = 0
     fam = print_family(u)
     famnames = {f.name for f in fam}
+    # the premise: what does ensure() carry over when it has to copy?  (memcpy(new, p->buffer, p->offset + 1) on the pinned
+    # tree; a variant that copies p->length bytes preserves everything that was written, accounted or not)
+    ens = u.functions.get('ensure')
+    if ens is not None and ens.body is not None:
+        wr = alloc_wrappers(u)
+        bodies = [ens] + [u.functions[callee_name(c)] for c in ens.calls() if callee_name(c) in wr]
+        copies = []
+        for h in bodies:
+            bufp = [p_['d'] for p_ in h.params if u.ty(p_['ty'])['c'] == 'ptr']
+            for c in h.calls():
+                if callee_name(c) in ('memcpy', 'memmove') and len(c['args']) == 3:
+                    src = strip_casts(c['args'][1])
+                    if src.get('k') == 'mem' and src['f'] == 'buffer' and is_ref(src['b']) and strip_casts(src['b'])['d'] in bufp:
+                        sz = strip_casts(c['args'][2])
+                        copies.append(sz.get('k') == 'mem' and sz['f'] == 'length' and is_ref(sz['b']) and
+                                      strip_casts(sz['b'])['d'] == strip_casts(src['b'])['d'])
+        if copies and all(copies):
+            R.ob('OUT8', ens, None, 'what ensure() carries over when it copies the buffer', True,
+                 'the whole old buffer (p->length bytes): bytes written behind ->offset survive a later request', key='premise')
+            R.floor('OUT8', 'capacity requests in the print family', 8, 8)
+            return
     leaves_dirty = {}      # printer -> it can return with bytes written that ->offset does not cover yet
     for _round in range(6):
         before = dict(leaves_dirty)
